@@ -726,6 +726,11 @@ def _in_plane_dir(rng, n, avoid=()):
     return _dir_orthogonal(rng, n, *avoid)
 
 
+def _sup1(d):
+    """The positive multiple of d with sup-norm 1 (keeps designed extents moderate)."""
+    return scale(1 / max(abs(c) for c in d), d)
+
+
 def _mk_linear(kind, A, B, mode):
     """Linear object of the kind from two carrier points A != B.
     mode 'AB': Segment A-B, HalfLine from A towards B; 'BA' the reverse."""
@@ -753,7 +758,7 @@ def _linear_designs(kind, geo, rng):
             out.append((_mk_linear(kind, A, B, mode or rng.choice(('AB', 'BA'))), label))
 
     P = geo.inner(rng)
-    d = _generic_dir(rng, geo)
+    d = _sup1(_generic_dir(rng, geo))
     big = _far(rng)
     # transversal through an interior point
     put(add(P, scale(-big, d)), add(P, scale(big, d)),
@@ -781,7 +786,7 @@ def _linear_designs(kind, geo, rng):
         fi = rng.randrange(len(geo.faces))
         Fp = geo.inner(rng, list(geo.faces[fi]))
         n = geo.normals[fi]
-        dd = _dir_not_orthogonal(rng, n)
+        dd = _sup1(_dir_not_orthogonal(rng, n))
         if dot(dd, n) < 0:
             dd = scale(-1, dd)
         put(Fp, add(Fp, scale(big, dd)), 'end_point_on_face_going_out', ('HalfLine', 'Segment'), 'AB')
@@ -789,10 +794,10 @@ def _linear_designs(kind, geo, rng):
         put(Fp, P, 'from_face_point_to_inner_point', ('Segment',), 'AB')
         # tangent at a vertex only / at an edge point only
         m = geo.support_normal_at_vertex(v)
-        t = _in_plane_dir(rng, m)
+        t = _sup1(_in_plane_dir(rng, m))
         put(add(v, scale(-big, t)), add(v, scale(big, t)), 'tangent_at_vertex')
         m = geo.support_normal_at_edge(e)
-        t = cross(m, sub(e[1], e[0]))
+        t = _sup1(cross(m, sub(e[1], e[0])))
         put(add(E, scale(-big, t)), add(E, scale(big, t)), 'tangent_at_edge_point')
         # along an edge
         ed = sub(e[1], e[0])
@@ -801,17 +806,17 @@ def _linear_designs(kind, geo, rng):
         put(e[0], e[1], 'edge_itself', ('Segment',))
         # in a face plane
         face = list(geo.faces[fi])
-        t = _in_plane_dir(rng, n, [sub(b, a) for a, b in O.polygon_edges(face)])
+        t = _sup1(_in_plane_dir(rng, n, [sub(b, a) for a, b in O.polygon_edges(face)]))
         put(add(Fp, scale(-big, t)), add(Fp, scale(big, t)), 'in_face_plane_through_face')
         put(Fp, add(Fp, scale(big, t)), 'in_face_plane_starting_in_face', ('HalfLine', 'Segment'), 'AB')
         fv = rng.choice(face)
         outp = add(fv, scale(2, sub(fv, O.centroid(face))))
         put(add(outp, scale(-big, t)), add(outp, scale(big, t)), 'in_face_plane_carrier_near_face')
         fg = _Geo(('Polygon', tuple(face)))
-        mt = cross(fg.support_normal_at_vertex(fv), O.polygon_normal(face))
+        mt = _sup1(cross(fg.support_normal_at_vertex(fv), O.polygon_normal(face)))
         put(add(fv, scale(-big, mt)), add(fv, scale(big, mt)), 'in_face_plane_tangent_at_vertex')
         # outside
-        put(add(Fp, scale(2, n)), add(add(Fp, scale(2, n)), scale(big, t)), 'outside_parallel_to_face')
+        put(add(Fp, scale(2, _sup1(n))), add(add(Fp, scale(2, _sup1(n))), scale(big, t)), 'outside_parallel_to_face')
         far = add(c, scale(big, d))
         put(far, add(far, scale(3, _dir_not_parallel(rng, d))), 'fully_outside')
         return out
@@ -822,8 +827,8 @@ def _linear_designs(kind, geo, rng):
     put(v, add(v, scale(big, d)), 'end_point_on_vertex_transversal', ('HalfLine', 'Segment'), 'AB')
     outp = add(v, scale(2, sub(v, c)))  # coplanar, outside
     put(add(outp, scale(-big, d)), add(outp, scale(big, d)), 'crossing_plane_outside_polygon')
-    up = add(P, scale(F(1, 2), n))
-    t = _in_plane_dir(rng, n, edge_dirs)
+    up = add(P, scale(F(1, 2), _sup1(n)))
+    t = _sup1(_in_plane_dir(rng, n, edge_dirs))
     put(add(up, scale(-big, t)), add(up, scale(big, t)), 'parallel_off_plane')
     # coplanar
     put(add(P, scale(-big, t)), add(P, scale(big, t)), 'coplanar_through_interior')
@@ -834,7 +839,7 @@ def _linear_designs(kind, geo, rng):
         a, b = verts[i], verts[(i + 2) % len(verts)]
         put(add(a, scale(-2, sub(b, a))), add(a, scale(3, sub(b, a))), 'coplanar_through_two_vertices')
         put(a, b, 'coplanar_diagonal_itself', ('Segment',))
-    mt = cross(geo.support_normal_at_vertex(v), n)
+    mt = _sup1(cross(geo.support_normal_at_vertex(v), n))
     put(add(v, scale(-big, mt)), add(v, scale(big, mt)), 'coplanar_tangent_at_vertex')
     put(v, add(v, scale(big, mt)), 'coplanar_tangent_starting_at_vertex', ('HalfLine', 'Segment'), 'AB')
     ed = sub(e[1], e[0])
@@ -868,12 +873,12 @@ def _point_designs(geo, rng):
     Fp = geo.inner(rng, list(geo.faces[fi]))
     if geo.solid:
         out.append((('Point', Fp), 'on_face'))
-        out.append((('Point', add(Fp, scale(F(1, 4), n))), 'just_outside_face'))
+        out.append((('Point', add(Fp, scale(F(1, 4), _sup1(n)))), 'just_outside_face'))
         face = geo.faces[fi]
         fv = rng.choice(face)
         out.append((('Point', add(fv, scale(2, sub(fv, O.centroid(face))))), 'in_face_plane_outside'))
     else:
-        out.append((('Point', add(Fp, scale(F(1, 4), n))), 'off_plane_above_interior'))
+        out.append((('Point', add(Fp, scale(F(1, 4), _sup1(n)))), 'off_plane_above_interior'))
         out.append((('Point', add(v, scale(2, sub(v, c)))), 'coplanar_outside'))
         E = geo.inner(rng, list(e))
         out.append((('Point', add(E, scale(F(1, 2), sub(E, c)))), 'coplanar_outside_near_edge'))
@@ -910,10 +915,10 @@ def _plane_designs(geo, rng):
         out.append((('Plane', e[0], cross(ed, sub(P, e[0]))), 'containing_edge_cutting'))
         out.append((('Plane', geo.faces[fi][0], scale(rng.choice((1, -1, 2)), n)), 'containing_face'))
         out.append((('Plane', P, n), 'parallel_to_face_cutting'))
-        out.append((('Plane', add(geo.faces[fi][0], scale(F(1, 2), n)), n), 'parallel_to_face_outside'))
+        out.append((('Plane', add(geo.faces[fi][0], scale(F(1, 2), _sup1(n))), n), 'parallel_to_face_outside'))
     else:
         out.append((('Plane', v, scale(rng.choice((1, -1, 3)), n)), 'coplanar'))
-        out.append((('Plane', add(P, scale(F(1, 2), n)), n), 'parallel_off'))
+        out.append((('Plane', add(P, scale(F(1, 2), _sup1(n))), n), 'parallel_off'))
         mm = geo.support_normal_at_edge(e)
         out.append((('Plane', e[0], add(mm, scale(rng.choice((0, 1, -2)), n))), 'containing_edge_only'))
         out.append((('Plane', P, O._primitive(cross(n, _in_plane_dir(rng, n, edge_dirs)))), 'perpendicular_cutting'))
@@ -1053,11 +1058,12 @@ def _solid_outside(base_pts, n, rng):
 
 
 def _translated_half(A, t, want, label):
-    """(A', A' + t, label) with A' = A scaled by 1, 2, 4 or 8 until A' and its translate by the
-    half-lattice vector t overlap in full dimension (result kind ``want``)."""
-    for k in (1, 2, 4, 8, 16):
+    """(A', A' + t', label): A' = A scaled by 1, 2, 4 or 8 (then t' = t/2, t/4, ... for very
+    thin bodies) until A' and its translate by the half-lattice vector overlap in full
+    dimension (result kind ``want``)."""
+    for k, div in ((1, 1), (2, 1), (4, 1), (8, 1), (8, 2), (8, 4), (8, 8), (8, 16), (8, 64), (8, 1024)):
         Ak = scaled_about(A, (F(0), F(0), F(0)), k)
-        B = translated(Ak, t)
+        B = translated(Ak, scale(F(1, div), t))
         r = O.intersect(Ak, B)
         if r is not None and r[0] == want:
             return Ak, B, label
@@ -1151,7 +1157,7 @@ def _pg_ph_designs(rng):
                 'pg_ph_face_plane_overlap'))
     out.append((translated(face, scale(5, sub(rng.choice(face[1]), fgeo.center))), K,
                 'pg_ph_face_plane_disjoint'))
-    out.append((translated(face, scale(F(1, 2), n)), K, 'pg_ph_parallel_off_face'))
+    out.append((translated(face, scale(F(1, 2), _sup1(n))), K, 'pg_ph_parallel_off_face'))
     # touching from outside
     out.append((_triangle_outside([v], geo.support_normal_at_vertex(v), rng), K, 'pg_ph_touch_vertex'))
     out.append((_triangle_outside([e[0], e[1]], geo.support_normal_at_edge(e), rng), K, 'pg_ph_touch_edge'))
@@ -1189,7 +1195,7 @@ def _ph_ph_designs(rng):
     out.append((A, mirror_in_plane(A, face[0], n), 'ph_ph_share_face'))
     out.append((A, translated(mirror_in_plane(A, face[0], n), scale(F(1, 2), sub(face[1], face[0]))),
                 'ph_ph_faces_overlap'))
-    out.append((A, translated(mirror_in_plane(A, face[0], n), scale(F(1, 2), n)), 'ph_ph_parallel_faces_gap'))
+    out.append((A, translated(mirror_in_plane(A, face[0], n), scale(F(1, 2), _sup1(n))), 'ph_ph_parallel_faces_gap'))
     _, B = polyhedron_frame(rng)
     cb = O.centroid(O.vertices(B))
     out.append((A, translated(B, add(sub(geo.inner(rng), cb), (F(1, 2), F(1, 4), F(-1, 4)))),
@@ -1205,7 +1211,7 @@ def _ph_ph_designs(rng):
     out.append((A, _solid_outside([e[0], e[1]], geo.support_normal_at_edge(e), rng), 'ph_ph_touch_edge_generic'))
     E = geo.inner(rng, list(e))
     m = geo.support_normal_at_edge(e)
-    t = cross(m, sub(e[1], e[0]))
+    t = _sup1(cross(m, sub(e[1], e[0])))
     out.append((A, _solid_outside([add(E, scale(-2, t)), add(E, scale(2, t))], m, rng), 'ph_ph_edges_cross_at_point'))
     return out
 
